@@ -34,6 +34,8 @@ pub struct Obs {
     /// run counters that differ from `runs` when the default pool has that many threads
     pub runs_by_pool: Vec<(usize, Vec<u32>)>,
     pub setups: Option<Vec<u32>>,
+    /// after a second setup on a fully populated world
+    pub setups2: Option<Vec<u32>>,
     pub disposes: Option<Vec<u32>>,
     /// try_into_sendable: Some(Ok(shape)) / Some(Err(()))
     pub sendable: Option<Result<Vec<Vec<usize>>, ()>>,
@@ -81,6 +83,16 @@ pub fn observe(ops: &[Op], resmap: &[u8], need: Need) -> Obs {
             o.dispatch_panic = Some(format!("setup: {}", payload_str(&*p)));
         }
         o.setups = Some(ctx.setups.lock().unwrap().clone());
+        // a second setup, on a world in which every resource of the universe already exists
+        let mut w2 = new_world();
+        let r = catch_unwind(AssertUnwindSafe(|| d.setup(&mut w2)));
+        if let Err(p) = r {
+            o.dispatch_panic = Some(format!("second setup: {}", payload_str(&*p)));
+        }
+        o.setups2 = Some(ctx.setups.lock().unwrap().clone());
+        if world_values(&w2) != INIT_VALUES.to_vec() {
+            o.dispatch_panic = Some(format!("setup on a populated world changed it: {:?}", world_values(&w2)));
+        }
     }
     if need.counters {
         let r = catch_unwind(AssertUnwindSafe(|| {
